@@ -363,6 +363,10 @@ def e_invalid():
     yield st([dw(['Debug'])], [Field(0, 'T', [opt(skip_meta(['Debug', 'Debug']))])])
     yield st([dw(['Debug'])], [Field(0, 'T', [opt(skip_meta(['Debug'])), opt(skip_meta(['Debug']))])])
     yield st([dw(['Debug'])], [Field(0, 'T', [opt(skip_meta(['Foo']))])])
+    yield st([dw(['Debug'])], [Field(0, 'T', [opt(skip_meta(['a::Debug']))])])          # a path that is no identifier
+    yield st([dw(['Debug'])], [Field(0, 'T', [opt(skip_meta(['r#Debug']))])])
+    yield st([dw(['Zeroize'])], [Field(0, 'T', [opt(skip_meta(['Zeroize', 'Zeroize']))])])
+    yield st([dw(['Zeroize', 'Debug'])], [Field(0, 'T', [opt(skip_meta(['Zeroize'])), opt(skip_meta(['Debug', 'Zeroize']))])])
     yield st([dw(['Debug'])], [Field(0, 'T', [opt(MList('skip', []))])])
     for pg, fg in itertools.product([None, ['Debug'], ['Hash'], ['Debug', 'Hash']], repeat=2):
         yield st([dw(['Debug', 'Hash']), Attr('dw', opt(skip_meta(pg, 'skip_inner')))], [Field(0, 'T', [opt(skip_meta(fg))])])
